@@ -418,10 +418,12 @@ pub struct Persister {
 	/// virtual crash: once armed and the counter reaches zero the node is dead; later writes are lost
 	pub crash_after: Mutex<Option<u64>>,
 	pub dead: AtomicBool,
+	/// a real MonitorUpdatingPersister over a recording store that is given the same calls (C19)
+	pub shadow: Mutex<Option<Arc<crate::mupshadow::MupShadow>>>,
 }
 impl Persister {
 	pub fn new(log: Arc<EvLog>, node: usize) -> Persister {
-		Persister { log, node, async_mode: AtomicBool::new(false), disk: Mutex::new(Disk::default()), seq: AtomicU64::new(0), writes: AtomicU64::new(0), crash_after: Mutex::new(None), dead: AtomicBool::new(false) }
+		Persister { log, node, async_mode: AtomicBool::new(false), disk: Mutex::new(Disk::default()), seq: AtomicU64::new(0), writes: AtomicU64::new(0), crash_after: Mutex::new(None), dead: AtomicBool::new(false), shadow: Mutex::new(None) }
 	}
 	fn record(&self, chan: ChannelId, update_id: Option<u64>, m: &ChannelMonitor<TapSigner>) -> ChannelMonitorUpdateStatus {
 		if self.dead.load(Ordering::SeqCst) {
@@ -476,6 +478,9 @@ impl Persist<TapSigner> for Persister {
 		if self.dead.load(Ordering::SeqCst) {
 			return ChannelMonitorUpdateStatus::InProgress;
 		}
+		if let Some(sh) = self.shadow.lock().unwrap().as_ref() {
+			sh.persist_new(_n, m);
+		}
 		let st = self.record(m.channel_id(), None, m);
 		self.log.push(Ev::PersistNew { node: self.node, chan: m.channel_id(), update_id: m.get_latest_update_id(), in_progress: st == ChannelMonitorUpdateStatus::InProgress });
 		st
@@ -483,6 +488,9 @@ impl Persist<TapSigner> for Persister {
 	fn update_persisted_channel(&self, _n: MonitorName, u: Option<&ChannelMonitorUpdate>, m: &ChannelMonitor<TapSigner>) -> ChannelMonitorUpdateStatus {
 		if self.dead.load(Ordering::SeqCst) {
 			return ChannelMonitorUpdateStatus::InProgress;
+		}
+		if let Some(sh) = self.shadow.lock().unwrap().as_ref() {
+			sh.update(_n, u, m);
 		}
 		let st = self.record(m.channel_id(), u.map(|u| u.update_id), m);
 		self.log.push(Ev::PersistUpdate { node: self.node, chan: m.channel_id(), update_id: u.map(|u| u.update_id), latest: m.get_latest_update_id(), in_progress: st == ChannelMonitorUpdateStatus::InProgress });
